@@ -346,17 +346,32 @@ def check_recordings(ctx, driver, module, files, open_kf, variant_of=lambda f: "
             target = min(r["mismatches"], key=lambda i: (len(path_to(nodes, i)), i))
             path = path_to(nodes, target)
             rec = nodes[target - 1]
-            again = ctx.replay_path(driver, variant, path)
-            if again["res"] == rec["res"] and again["proj"] == rec["proj"]:
-                rp = write_replay(ctx, driver, variant, module, path, dict(res=rec["res"], proj=rec["proj"]))
+            # reproduce: re-execute the path on the real code and validate that recording again
+            # (exact equality with the first recording is not required: Go's map iteration and
+            # Shuffle are legitimately nondeterministic; what must reproduce is the rejection)
+            confirmed = None
+            for attempt in range(3):
+                out = os.path.join(ctx.scratch, "t", "confirm-%d-%d.lin.ndjson" % (target, attempt))
+                ctx.replay_path(driver, variant, path, out=out)
+                rr = ctx.tlc(module, cfg=cfg, env={"TRACE": out}, workers=1, xmx="1g")
+                if rr["rc"] == 12 and rr["mismatches"]:
+                    n2 = load_trace(out)
+                    t2 = min(rr["mismatches"])
+                    confirmed = (path_to(n2, t2), n2[t2 - 1])
+                    break
+                if rr["rc"] != 0 or rr["errors"]:
+                    raise Infra("re-validation failed: " + rr["out"][-1500:])
+            if confirmed:
+                cpath, crec = confirmed
+                rp = write_replay(ctx, driver, variant, module, cpath, dict(res=crec["res"], proj=crec["proj"]))
                 log("unexplained call at line %d of %s: path=%s observed=%s" % (
-                    target, os.path.basename(f), json.dumps(path, separators=(",", ":")),
-                    json.dumps(dict(res=rec["res"], proj=rec["proj"]), separators=(",", ":"))))
+                    target, os.path.basename(f), json.dumps(cpath, separators=(",", ":"))[:1500],
+                    json.dumps(dict(res=crec["res"], proj=crec["proj"]), separators=(",", ":"))[:1500]))
                 violation(ctx, rp)
                 nviol += 1
             else:
-                raise Infra("mismatch at line %d of %s did not reproduce on re-execution (recorded %s, now %s)"
-                            % (target, f, rec, again))
+                raise Infra("mismatch at line %d of %s did not reproduce on re-execution (recorded %s)"
+                            % (target, f, json.dumps(rec)[:800]))
             ctx.states += r["distinct"]
             ctx.transitions += r["generated"]
             continue
@@ -368,6 +383,10 @@ def check_recordings(ctx, driver, module, files, open_kf, variant_of=lambda f: "
         ctx.transitions += r["generated"]
         ctx.trace_nodes += len(nodes) - 1
         ctx.traces += count_leaves(nodes)
+        if len(ctx.samples) < 3 and len(nodes) > 1:   # a recorded execution, written out
+            i = min(len(nodes), 2 + (len(nodes) * 2) // 3)
+            pth = path_to(nodes, i)
+            ctx.samples.append(dict(path=pth[-8:], res=nodes[i - 1]["res"], proj=nodes[i - 1]["proj"]))
         for line, ids in r["kfhits"]:
             for i in ids:
                 ctx.kf_hits[i] = ctx.kf_hits.get(i, 0) + 1
